@@ -31,16 +31,97 @@ _sims: dict[tuple, CompSim] = {}
 
 
 def _sim(d: dict) -> CompSim:
-    key = (d["depth"], d["g"], d["n"], d["gran"], d["r"], d["w"])
+    two = d.get("callers") == 2
+    key = (d["depth"], d["g"], d["n"], d["gran"], d["r"], d["w"], two)
     if key not in _sims:
         from transactron.lib.storage import AsyncMemoryBank
 
-        _sims[key] = CompSim(
-            lambda: AsyncMemoryBank(
-                shape=d["g"] * d["n"], depth=d["depth"], granularity=d["gran"], read_ports=d["r"], write_ports=d["w"]
-            )
+        mk = lambda: AsyncMemoryBank(  # noqa: E731
+            shape=d["g"] * d["n"], depth=d["depth"], granularity=d["gran"], read_ports=d["r"], write_ports=d["w"]
         )
+        if not two:
+            _sims[key] = CompSim(mk)
+        else:
+            from ..twocall_b5 import probe, wrap
+
+            sim = CompSim(lambda: wrap(mk(), ["read", "write"]))
+            wv = {"addr": 0, "data": 1} if d["gran"] is None else {"addr": 0, "data": 1, "mask": 1}
+            both = {f"read_{c}[{i}]": {"addr": 0} for c in "ab" for i in range(d["r"])}
+            both.update({f"write_{c}[{j}]": wv for c in "ab" for j in range(d["w"])})
+            inst = [("read", i) for i in range(d["r"])] + [("write", j) for j in range(d["w"])]
+            sim.prio = probe(sim, [both, both], inst)
+            _sims[key] = sim
     return _sims[key]
+
+
+def _lst1(t):
+    return [None if x == "-" else int(x) for x in t.split(",")] if t else []
+
+
+def _lst3(t):
+    return [None if x == "-" else tuple(int(y) for y in x.split(":")) for x in t.split(",")] if t else []
+
+
+def _wop(d, x):
+    if x is None:
+        return None
+    return {"addr": x[0], "data": x[1]} if d["gran"] is None else {"addr": x[0], "data": x[1], "mask": x[2]}
+
+
+def impl2(case: Case) -> list[str]:
+    """two callers per method (tokens ra= rb= wa= wb=); merged into the single-caller observation format"""
+    from ..twocall_b5 import merge
+
+    d = case.desc
+    sim = _sim(d)
+    ops, atts = [], []
+    for line in case.ops:
+        t = dict(x.split("=") for x in line.split()[1:])
+        o = {"ra": _lst1(t["ra"]), "rb": _lst1(t["rb"]), "wa": _lst3(t["wa"]), "wb": _lst3(t["wb"])}
+        op = {}
+        for c in "ab":
+            for i, a in enumerate(o["r" + c]):
+                op[f"read_{c}[{i}]"] = None if a is None else {"addr": a}
+            for j, x in enumerate(o["w" + c]):
+                op[f"write_{c}[{j}]"] = _wop(d, x)
+        ops.append(op)
+        atts.append(o)
+    tr = sim.run(ops)
+    out = ["ok"]
+    for res, o in zip(tr, atts):
+        an, rr, ww = [], [], []
+        for i in range(d["r"]):
+            v, a = merge(res, "read", i, o["ra"][i] is not None, o["rb"][i] is not None, sim.prio[("read", i)])
+            rr.append("-" if v is None else str(v))
+            an += [a] if a else []
+        for j in range(d["w"]):
+            v, a = merge(res, "write", j, o["wa"][j] is not None, o["wb"][j] is not None, sim.prio[("write", j)])
+            ww.append("0" if v is None else "1")
+            an += [a] if a else []
+        out.append(f"r={','.join(rr)} w={','.join(ww)}" + (f" anomaly={'+'.join(an)}" if an else ""))
+    return out
+
+
+def two_line(rng, line: str, d: dict, prio: dict) -> str:
+    """distribute the attempted calls of an effective single-caller line over two callers (twocall_b5.split)"""
+    from ..twocall_b5 import split
+
+    rs, ws = parse_op(line)
+    amax = 1 << max(0, (d["depth"] - 1).bit_length())
+    width = d["g"] * d["n"]
+    ra, rb, wa, wb = [], [], [], []
+    for i, a in enumerate(rs):
+        x, y = split(rng, a, rng.randrange(amax), prio[("read", i)])
+        ra.append(x)
+        rb.append(y)
+    for j, w in enumerate(ws):
+        junk = (rng.randrange(amax), rng.getrandbits(width), rng.getrandbits(d["n"]) | 1 if d["gran"] is not None else 1)
+        x, y = split(rng, w, junk, prio[("write", j)])
+        wa.append(x)
+        wb.append(y)
+    f1 = lambda l: ",".join("-" if x is None else str(x) for x in l)  # noqa: E731
+    f3 = lambda l: ",".join("-" if x is None else f"{x[0]}:{x[1]}:{x[2]}" for x in l)  # noqa: E731
+    return f"{line} ra={f1(ra)} rb={f1(rb)} wa={f3(wa)} wb={f3(wb)}"
 
 
 def parse_op(line: str):
@@ -59,6 +140,8 @@ def fmt_op(rs, ws) -> str:
 
 def impl(case: Case) -> list[str]:
     d = case.desc
+    if d.get("callers") == 2:
+        return impl2(case)
     sim = _sim(d)
     ops = []
     for line in case.ops:
@@ -92,6 +175,8 @@ def monitor(case: Case, out: list[str]):
     for k, (line, o) in enumerate(zip(case.ops, out[1:])):
         rs, ws = parse_op(line)
         f = dict(x.split("=") for x in o.split())
+        if "anomaly" in f:
+            return f"cycle {k}: {f['anomaly']} (two callers of one exclusive method served in one cycle)"
         got_r = f["r"].split(",") if f["r"] else []
         got_w = f["w"].split(",") if f["w"] else []
         addrs = [x[0] for x in ws if x is not None]
@@ -195,6 +280,14 @@ def gen_cases(ctx: Check):
             good.append(Case(cfg, gen_ops(rng, d, cyc, pr, pw, hot=rng.random() < 0.5), d, "random"))
         if d["w"] > 1:
             malformed.append(Case(cfg, gen_ops(rng, d, cyc // 2, 0.8, 0.9, distinct=False, hot=True), d, "malformed"))
+    # two callers per method: an exclusive method serves at most one of them per cycle; the union of the executed
+    # calls is the single-caller history the property (and the model) talks about
+    for depth, g, n, gran, r, w in [(4, 8, 1, None, 1, 1), (5, 4, 2, 4, 2, 2), (3, 2, 3, 2, 1, 2), (8, 8, 1, None, 2, 1)]:
+        d = dict(_desc(depth, g, n, gran, r, w), callers=2)
+        prio = _sim(d).prio
+        for pr, pw in [(0.9, 0.9), (0.6, 0.5)]:
+            eff = gen_ops(rng, d, cyc, pr, pw, hot=True)
+            good.append(Case(_cfg(d), [two_line(rng, ln, d, prio) for ln in eff], d, "two-callers"))
     if ctx.thorough:
         # all histories of length <= 3 of a 2-row, 1-bit, 1r1w bank; of a 2-chunk 1r1w bank all of length <= 2 and
         # a sample of length 3
@@ -226,7 +319,10 @@ def _corpus() -> list[Case]:
 def more_cases(case: Case, rng):
     d = case.desc
     for _ in range(40):
-        yield Case(_cfg(d), gen_ops(rng, d, 200, rng.choice([0.5, 0.9]), rng.choice([0.3, 0.9]), hot=rng.random() < 0.7), d, "search")
+        ops = gen_ops(rng, d, 200, rng.choice([0.5, 0.9]), rng.choice([0.3, 0.9]), hot=rng.random() < 0.7)
+        if d.get("callers") == 2:
+            ops = [two_line(rng, ln, d, _sim(d).prio) for ln in ops]
+        yield Case(_cfg(d), ops, d, "search")
 
 
 def nontrivial(case: Case, out: list[str]) -> bool:
